@@ -121,8 +121,11 @@ def limits_spec(counts, lo, hi):
         fc = L.final_counts._elem
         ce = counts._elem
         # entries already written hold the sum of the fine bins between the two limit indices
-        return SBool(z3.ForAll([t], z3.Implies(z3.And(t >= 0, t < to_term(L.j)),
-                                               fc(t) == sigma.total(lambda u: ce(lo(t) + u), hi(t) - lo(t)))))
+        of = L.old.final_counts._elem
+        return dict(written=SBool(z3.ForAll([t], z3.Implies(z3.And(t >= 0, t < to_term(L.j)),
+                                                            fc(t) == sigma.total(lambda u: ce(lo(t) + u), hi(t) - lo(t))))),
+                    # frame: entries of scales not visited yet hold what they held before the loop
+                    untouched=SBool(z3.ForAll([t], z3.Implies(t >= to_term(L.j), fc(t) == of(t)))))
     return LoopSpec(inv=inv)
 
 
@@ -749,6 +752,7 @@ def u_count_pairs(ctx, auto, S):
     class Par:
         COMM = mod("yaw.utils.parallel").COMM
         on_root = staticmethod(lambda: True)
+        on_worker = staticmethod(lambda: False)
         iter_unordered = staticmethod(iter_unordered_stub)
 
     class Cat:
